@@ -197,8 +197,15 @@ def r3_both_ends_checked(ctx: Ctx) -> None:
             raise AnalysisError(f"RelativeJumpOpcode.emit: an additional rejection under `{t[:70]}`; whether it refuses branches that must be encoded is not decided")
     table = extract_table(ctx)
     rel = [k for k in table if k[3] == "rel"]
+    from ..isa import load_isa
+
+    isa, _n = load_isa()
     for k in rel:
         ctx.check(k[1] == "direct" and k[2] is None, f"table:{k[0]}", "branch mnemonics take a plain operand")
+        if k in isa:
+            ctx.check(table[k] == isa[k], f"table:{k[0]}:opcode", f"the branch opcode of {k[0]} is {hex(isa[k])}; the table says {hex(table[k])}")
+        else:
+            ctx.fail(f"table:{k[0]}:opcode", f"{k[0]} is not a relative branch of the 65c816")
     ctx.count("branch_mnemonics", len(rel))
     ctx.floor("branch_mnemonics", 4)
 
@@ -214,11 +221,13 @@ def r4_run_address_bookkeeping(ctx: Ctx) -> None:
 def r5_bank_classification(ctx: Ctx) -> None:
     """which banks are RAM (branch rejected) and which are ROM is what the bus tables say: built-in layouts, bank lookup construction
     (last mapping of a bank wins) and `no offset exactly for writable mappings` (the C04.R1 / R2 obligations and the RAM clause of C04.R4)"""
-    from .c04 import r1_builtin_maps, r2_mirror_construction, ram_has_no_offset
+    from .c04 import r1_builtin_maps, r2_mirror_construction, r3_argument_binding, r5_formula_normal_form, ram_has_no_offset
 
     r1_builtin_maps(ctx)
     r2_mirror_construction(ctx)
+    r3_argument_binding(ctx)  # a user `.map ... writable=1` reaches Bus.map's RAM flag
     ram_has_no_offset(ctx)
+    r5_formula_normal_form(ctx)  # the displacement is a difference of file offsets: the offset formula
 
 
 def r6_layout_agreement(ctx: Ctx) -> None:
